@@ -101,6 +101,7 @@ def tmpStr (l : List (Nat × Nat)) : List String := sortStrs (l.map fun (r, e) =
 /-! ### driver state -/
 
 structure DState where
+  f        : Facts := Facts.code     -- which tree the model describes (driver arguments `cachecopy`, `rollbackchecked`)
   m        : State := init 0
   mode     : String := "meta"
   dead     : Bool := false
@@ -263,11 +264,14 @@ def pruneMonitor (d : DState) (ob : Obs) : List Verdict :=
 
 /-! ### stepping -/
 
-def fcts : Facts := Facts.code
-
 def stepM (d : DState) (op : Op) : DState × Res :=
-  let (s, r) := step fcts d.m op
+  let (s, r) := stepF d.f d.m op
   ({ d with m := s }, r)
+
+/-- `finish` of the selected tree followed by the cache semantics of the selected tree -/
+def finishD (d : DState) (s : State) (w : Nat) (ok : Bool) : State × Res :=
+  let (s', r) := finishF d.f s w ok
+  (fixCache d.f s', r)
 
 def resVerdict (field : String) (model : Res) (impl : String) : List Verdict :=
   match model with
@@ -427,7 +431,7 @@ def step (d : DState) (l : Line) : DState × List Verdict :=
       let (s1, b) := newBuf d.m (.dataOf r)
       let (s2, r1) := reserve s1 0 r b loc
       let (s3, r2) := match r1 with
-        | .placed _ _ => let (s3, rf) := finish s2 0 (fail == 0); (s3, if fail == 0 then r1 else rf)
+        | .placed _ _ => let (s3, rf) := finishD d s2 0 (fail == 0); (s3, if fail == 0 then r1 else rf)
         | _ => (s2, r1)
       let d := { d with m := s3, stores := d.stores + 1 }
       let d := match r2 with
@@ -452,7 +456,7 @@ def step (d : DState) (l : Line) : DState × List Verdict :=
         let (s2, r1) := reserve d.m w r b loc
         let paused := l.op == "reserve"
         let (s3, r2) := match r1 with
-          | .placed _ _ => if paused then (s2, r1) else let (s3, rf) := finish s2 w true; (s3, match rf with | .ok => r1 | x => x)
+          | .placed _ _ => if paused then (s2, r1) else let (s3, rf) := finishD d s2 w true; (s3, match rf with | .ok => r1 | x => x)
           | _ => (s2, r1)
         let d := { d with m := s3, stores := d.stores + 1 }
         let d := match r2 with
@@ -541,7 +545,7 @@ def step (d : DState) (l : Line) : DState × List Verdict :=
     match getNat a "h" with
     | some h =>
       let pre := d
-      let s := reclaim fcts d.m h
+      let s := reclaim d.f d.m h
       let d := { d with m := s, acked := [], reclaims := d.reclaims + 1 }
       let d := noteEv d (pre.iOcc.map (·.2.2)) "prune"
       conclude d l (cmp "meta/res" "ok" (implRes res)) fun ob =>
